@@ -40,13 +40,23 @@ def rule_b(ctx):
     ctx.floor('b', 'pop_chunk_sites', len(pops), 1)
     for c in pops:
         lim = arg_desc(F, c, 1)
-        # every reaching value of `limit` is min(limit_param, max_data - offset) possibly minus lengths
-        ok = D.has_call(lim, 'Ord::min') or D.has_call(lim, 'u64::min') or D.has_call(lim, 'cmp::min')
-        ok = ok and D.has_param(lim, name='limit') and D.has_field(lim, 'max_data') and D.has_call(lim, 'SendBuffer::offset')
-        # no reaching definition that is the raw parameter only
-        raw = _has_raw_alternative(lim)
-        ctx.check(ok and not raw, 'b', 'pop_limit_is_min_of_budget', w, c.where(), D.render(lim)[:200],
-                  'the limit handed to pop_chunk is not min(limit, max_data - offset) on every path: ' + D.render(lim)[:300])
+        # every reaching value of `limit` is min(limit_param, max_data - offset), minus the lengths of chunks already popped
+        ok, why = _capped(lim)
+        ctx.check(ok, 'b', 'pop_limit_is_min_of_budget', w, c.where(), D.render(lim)[:200],
+                  'the limit handed to pop_chunk is not min(limit, max_data - offset) [minus popped lengths] on every path: %s in %s' % (why, D.render(lim)[:300]))
+        # the loop must lower the cap by the popped chunk's length before the next pop
+        decs = []
+        for l, (ty, nm) in enumerate(w.locals):
+            if nm != 'limit' or l <= w.argc:
+                continue
+            for df in w.defs_of(l):
+                if df[0] == 'stmt':
+                    v = d.rvalue(df[3], df[1], df[2], 0)
+                    if v[0] == 'bin' and v[1] == 'Sub' and D.has_call(v[3], 'BytesSource::pop_chunk') and D.has_call(v[3], 'Bytes::len'):
+                        decs.append(df[1])
+        p = path_avoiding(w, w.succ[c.bb], [c.bb], decs)
+        ctx.check(bool(decs) and p is None, 'b', 'pop_limit_decremented_in_loop', w, c.where(), 'every path back to pop_chunk passes `limit -= chunk.len()`',
+                  'a loop path returns to pop_chunk without lowering the cap by the popped length: %s' % (fmt_path(w, p) if p else 'no decrement found'))
     # only append: SendBuffer::write(chunk) with chunk from pop_chunk
     sw = w.calls_to('SendBuffer::write')
     ctx.floor('b', 'sendbuffer_write_sites', len(sw), 1)
@@ -75,6 +85,29 @@ def rule_b(ctx):
     # limit == 0 -> Blocked before Send::write
     guard_error(ctx, 'b', 'zero_write_limit_blocks', ws, lambda op, a, b: op == 'Eq' and ((D.has_call(a, 'StreamsState::write_limit') and D.has_const(b, 0)) or (D.has_call(b, 'StreamsState::write_limit') and D.has_const(a, 0))),
                 variant=('WriteError', 'Blocked'), protect=[c.bb for c in cs], what='write_limit() == 0')
+
+
+def _capped(d):
+    """structural: min(limit, max_data - offset) | capped - len(popped chunk) | loop-carried reference | phi of those"""
+    if d[0] == 'phi':
+        for x in d[1]:
+            ok, why = _capped(x)
+            if not ok:
+                return False, why
+        return True, ''
+    if d[0] == 'call' and d[1] in ('Ord::min', 'u64::min', 'cmp::min') and len(d[3]) == 2:
+        a, b = d[3]
+        if a[0] != 'param':
+            a, b = b, a
+        ok = a[0] == 'param' and D.has_param(a, name='limit') and b[0] == 'bin' and b[1] == 'Sub' and D.has_field(b[2], 'max_data') and D.has_call(b[3], 'SendBuffer::offset')
+        return ok, '' if ok else D.render(d)[:120]
+    if d[0] == 'bin' and d[1] == 'Sub':
+        if not (D.has_call(d[3], 'BytesSource::pop_chunk') and D.has_call(d[3], 'Bytes::len')):
+            return False, D.render(d)[:120]
+        return _capped(d[2])
+    if d[0] in ('local', 'field', 'index') and not D.has_param(d) and not D.calls_in(d):
+        return True, ''   # loop-carried reference to the cap itself (checked-sub result)
+    return False, D.render(d)[:120]
 
 
 def _has_raw_alternative(d):
@@ -150,13 +183,18 @@ def rule_d(ctx):
     sp = ctx.pfn('StreamsState::set_params')
     stores = store_values(ctx, SS, 'max')
     seen_sp = 0
+    seen_rms = 0
     for w, v in stores:
         r = F.root_of(w.body)
         if r.id == rms.id:
+            seen_rms += 1
+
             def rel(o, a, b):
                 # violating: count <= current
                 return o == 'Le' and D.has_param(a, name='count') and D.has_field(b, 'max')
             guard_protects(ctx, 'd', 'stream_count_limit_only_grows', rms, rel, [w.bb], what='count <= current')
+            ctx.check(v[0] == 'param' and D.has_param(v, name='count'), 'd', 'stream_count_limit_value', rms, w.where(), D.render(v),
+                      'received_max_streams stores something other than the received count: ' + D.render(v)[:160])
         elif r.id == sp.id:
             seen_sp += 1
             ok = v[0] != 'phi' and not D.has_field(v, 'max') and (D.has_field(v, 'initial_max_streams_bidi') or D.has_field(v, 'initial_max_streams_uni')) and not D.calls_in(v) - {'VarInt::into_inner', '<VarInt as Into>::into', '<u64 as From>::from'}
@@ -169,6 +207,7 @@ def rule_d(ctx):
     # mutable borrows of max (e.g. `let current = &mut self.max[..]`) only in received_max_streams
     who_may_write(ctx, 'd', 'stream_count_limit_writers', SS, 'max', ['StreamsState::received_max_streams', 'StreamsState::set_params', 'StreamsState::new'], kinds=('mutborrow', 'assign'))
     ctx.floor('d', 'set_params_max_stores', seen_sp, 2)
+    ctx.floor('d', 'received_max_streams_stores', seen_rms, 1)
 
 
 def rule_e(ctx):
